@@ -195,6 +195,14 @@ fn products<T: Sc>(t: &mut Toks, cx: &mut Ctx) -> String {
             match (&aty, &aty2) { (Ok(p), Ok(q)) => cx.check(same_vec(&p.vec, &q.vec), "transpose().multiply(y) != transpose_multiply(y)"), (Err(_), Err(_)) => {}, _ => cx.fail("transpose().multiply(y) and transpose_multiply(y) disagree on acceptance") }
             if let (Ok(p), Ok(q)) = (&ax, &aty) { cx.check(y.dot(p) == q.dot(&x), "<y, A x> != <A^T y, x>"); }
             if let (Ok(p), Ok(q)) = (&ax, &sax) { cx.check(same_vec(&(p.clone() * a).vec, &q.vec), "scale(a) then multiply != a * multiply"); }
+        } else if let (Ok(_), Ok(q)) = (&ax, &sax) {
+            // floats: (a A) x against the dense reference with entries fl(a_ij * a) (scale is ONE rounded product per stored value)
+            if x.size() == cols && q.size() == rows && a.finite() {
+                let uu = f64::EPSILON / 2.0 * if T::TAG == "c" { 8.0 } else { 1.0 };
+                let ok = (0..rows).all(|i| { let mut acc = T::zero(); let mut ab = 0.0; for j in 0..cols { if seen.contains(&(i, j)) { let e = d[i][j] * a; acc += e * x[j]; ab += (e * x[j]).mag64(); } }
+                    !(ab.is_finite()) || (q[i] - acc).mag64() <= 2.02 * (cols as f64 + 1.0) * uu * ab + 1e-300 });
+                cx.check(ok, "scale(a) then multiply differs from the product with the once-rounded entries fl(a_ij * a) by more than the rounding bound (scale_rounding + multiply_rounding)");
+            }
         }
     }
     out
@@ -210,22 +218,25 @@ pub fn exec(op: &str, t: &mut Toks, cx: &mut Ctx) -> Option<String> {
     }
 }
 
-pub fn gen_pattern<T: Sc>(rng: &mut Rng, rows: usize, cols: usize, density: usize) -> Vec<(usize, usize, T)> {
+pub fn gen_pattern<T: Sc>(rng: &mut Rng, rows: usize, cols: usize, density: usize) -> Vec<(usize, usize, T)> { gen_pattern_k::<T>(rng, rows, cols, density, 0) }
+/// `kind` as in `Sc::gen`: 0 small exact values, 2 / 3 general magnitudes
+pub fn gen_pattern_k<T: Sc>(rng: &mut Rng, rows: usize, cols: usize, density: usize, kind: usize) -> Vec<(usize, usize, T)> {
     let mut v = Vec::new();
-    for j in 0..cols { for i in 0..rows { if rng.chance(density) { v.push((i, j, T::gen(rng, 0, 0))); } } }
+    for j in 0..cols { for i in 0..rows { if rng.chance(density) { v.push((i, j, T::gen(rng, 0, kind))); } } }
     // random order
     for i in (1..v.len()).rev() { let j = rng.below(i + 1); v.swap(i, j); }
     v
 }
 fn trips_str<T: Sc>(v: &[(usize, usize, T)]) -> String { let mut s = format!("{}", v.len()); for (r, c, x) in v { s.push_str(&format!(" {} {} {}", r, c, x.wr())); } s }
 
-fn gen_ops<T: Sc>(rng: &mut Rng, rows: usize, cols: usize, nops: usize) -> String {
+fn gen_ops<T: Sc>(rng: &mut Rng, rows: usize, cols: usize, nops: usize) -> String { gen_ops_k::<T>(rng, rows, cols, nops, 0) }
+fn gen_ops_k<T: Sc>(rng: &mut Rng, rows: usize, cols: usize, nops: usize, kind: usize) -> String {
     let (mut r, mut c) = (rows, cols);
     let mut s = format!("{}", nops);
     for _ in 0..nops {
         match rng.below(10) {
-            0..=4 => { let bad = rng.chance(6); let (i, j) = (if bad || r == 0 { r + rng.below(2) } else { rng.below(r) }, if c == 0 { rng.below(2) } else { rng.below(c) }); s.push_str(&format!(" insert {} {} {}", i, j, T::gen(rng, 5, 0).wr())); }
-            5 | 6 => s.push_str(&format!(" scale {}", T::gen(rng, 5, 0).wr())),
+            0..=4 => { let bad = rng.chance(6); let (i, j) = (if bad || r == 0 { r + rng.below(2) } else { rng.below(r) }, if c == 0 { rng.below(2) } else { rng.below(c) }); s.push_str(&format!(" insert {} {} {}", i, j, T::gen(rng, 5, kind).wr())); }
+            5 | 6 => s.push_str(&format!(" scale {}", T::gen(rng, 5, kind).wr())),
             7 | 8 => { s.push_str(" transpose"); std::mem::swap(&mut r, &mut c); }
             _ => { let (i, j) = (if r == 0 { 0 } else { rng.below(r + 1) }, if c == 0 { 0 } else { rng.below(c + 1) }); s.push_str(&format!(" get {} {}", i, j)); }
         }
@@ -265,6 +276,8 @@ pub fn gen(rng: &mut Rng, tier: Tier, out: &mut Vec<String>) {
         let nops = 1 + rng.below(25);
         out.push(format!("sp_hist q {} {} {} {}", rows, cols, trips_str(&v), gen_ops::<Q>(rng, rows, cols, nops)));
         if i % 5 == 0 { let v = gen_pattern::<f64>(rng, rows, cols, density); out.push(format!("sp_hist f {} {} {} {}", rows, cols, trips_str(&v), gen_ops::<f64>(rng, rows, cols, nops.min(6)))); }
+        // general magnitudes (values, inserted values and scale factors 10^[-3,3] / 10^[-12,12]): a scaling must be ONE rounded product
+        if i % 5 == 2 { let k = 2 + rng.below(2); let v = gen_pattern_k::<f64>(rng, rows, cols, density, k); out.push(format!("sp_hist f {} {} {} {}", rows, cols, trips_str(&v), gen_ops_k::<f64>(rng, rows, cols, nops.min(8), k))); }
     }
     // raw compressed-column arrays (well-formed by construction)
     for _ in 0..nh / 5 {
@@ -318,6 +331,8 @@ pub fn gen_c07(rng: &mut Rng, tier: Tier, out: &mut Vec<String>) {
         if i % 3 == 0 {
             let v = gen_pattern::<f64>(rng, rows, cols, density);
             out.push(format!("sp_prod f {} {} {} {} {} {}", rows, cols, trips_str(&v), gen_vec_str::<f64>(rng, cols, 10, 1), gen_vec_str::<f64>(rng, rows, 10, 1), f64::gen(rng, 5, 1).wr()));
+            let k = 2 + rng.below(2); let v = gen_pattern_k::<f64>(rng, rows, cols, density, k);
+            out.push(format!("sp_prod f {} {} {} {} {} {}", rows, cols, trips_str(&v), gen_vec_str::<f64>(rng, cols, 10, k), gen_vec_str::<f64>(rng, rows, 10, k), f64::gen(rng, 0, 3).wr()));
         }
     }
 }
